@@ -24,7 +24,7 @@ from vlib.campaign import Campaign
 from vlib.engine_d import Run, inj_cancel, inj_signal
 from vlib.par import run_shards
 from vlib.sched import make_schedule, schedule_desc
-from vlib.spec import core_corpus, dag_spec, features, loop_spec
+from vlib.spec import core_corpus, dag_spec, features, loop_spec, syn_confluent_spec
 
 LEVEL = "exploration"
 
@@ -196,7 +196,7 @@ def judge(c: Campaign, spec: dict[str, Any], run: Run, desc: Any, extra=()) -> N
 def shard(prop: str, tier: str, seed: int, n: int) -> dict[str, Any]:
     c = Campaign(prop, tier, seed, LEVEL)
     spec_st = st.one_of(st.sampled_from(list(core_corpus().values())), dag_spec(max_stages=5, allow=("multi", "fail", "cof", "poll", "skip", "transient")),
-                        loop_spec(max_j=2))
+                        loop_spec(max_j=2), syn_confluent_spec())
 
     @hseed(seed)
     @settings(max_examples=n, database=None, deadline=None, derandomize=False, suppress_health_check=list(HealthCheck),
